@@ -227,6 +227,9 @@ class Initiator(DataExchangeProtocol):
             res = self.send_dep_req_recv_dep_res(req, self.rwt, timeout)
             if res.pfb.fmt == DEP_RES.TimeoutExtension:
                 for i in range(3):
+                    if len(res.data) == 0:
+                        error = "NFC-DEP RTOX response without RTOX value"
+                        raise nfc.clf.ProtocolError(error)
                     req = RTOX(res.data[0], self.did, self.nad)
                     rwt = res.data[0] * self.rwt
                     log.warning("target requested %.3f sec more time", rwt)
@@ -256,6 +259,9 @@ class Initiator(DataExchangeProtocol):
             res = self.send_dep_req_recv_dep_res(req, self.rwt, timeout)
             if res.pfb.fmt == DEP_RES.TimeoutExtension:
                 for i in range(3):
+                    if len(res.data) == 0:
+                        error = "NFC-DEP RTOX response without RTOX value"
+                        raise nfc.clf.ProtocolError(error)
                     req = RTOX(res.data[0], self.did, self.nad)
                     rwt = res.data[0] * self.rwt
                     log.warning("target requested %.3f sec more time", rwt)
@@ -579,7 +585,8 @@ class Target(DataExchangeProtocol):
         res = RTOX(rtox, self.did, self.nad)
         req = self.send_dep_res_recv_dep_req(res, deadline=time.time()+1)
         if type(req) == DEP_REQ and req.pfb.fmt == DEP_REQ.TimeoutExtension:
-            return req.data[0] & 0x3F
+            if len(req.data) > 0:
+                return req.data[0] & 0x3F
 
     def send_dep_res_recv_dep_req(self, dep_res, deadline):
         def ATN(did, nad):
